@@ -119,7 +119,7 @@ func runProofs(muts []proofMut, dir string) {
 	}
 	tx := store.NewTx(st.MaxTxEntries(), st.MaxKeyLen())
 	vh.Must(st.ReadTx(dst.ID, false, tx), "ReadTx")
-	iproof, err := tx.Proof([]byte("k9"))
+	iproof, err := tx.Proof([]byte("k10"))
 	vh.Must(err, "inclusion proof")
 
 	// fresh valid messages for every mutant
